@@ -27,6 +27,39 @@ fn attr_unescape(s: &str) -> String {
     s.replace("&lt;", "<").replace("&gt;", ">").replace("&quot;", "\"").replace("&amp;", "&")
 }
 
+/// independent second reading of "what the description displays": render the description's nodes through the
+/// real HTML renderer (as the content of a paragraph) and strip the markup
+fn display_via_html(children: Vec<Node>) -> String {
+    let mut p = Node::new(markdown_it::plugins::cmark::block::paragraph::Paragraph);
+    p.children = children;
+    let html = p.render();
+    let body = html.trim_end_matches('\n').strip_prefix("<p>").and_then(|x| x.strip_suffix("</p>")).unwrap_or(&html).to_string();
+    let mut out = String::new();
+    let mut rest = body.as_str();
+    while !rest.is_empty() {
+        if let Some(r) = rest.strip_prefix('<') {
+            let end = r.find('>').unwrap_or(r.len());
+            let tag = &r[..end];
+            if tag.starts_with("img") {
+                if let Some(i) = tag.find(" alt=\"") { let v = &tag[i + 6..]; out.push_str(&attr_unescape(&v[..v.find('"').unwrap_or(v.len())])); }
+            }
+            rest = &r[(end + 1).min(r.len())..];
+            if tag == "br" || tag == "br /" { rest = rest.strip_prefix('\n').map(|x| { out.push('\n'); x }).unwrap_or(rest); }
+        } else {
+            let end = rest.find('<').unwrap_or(rest.len());
+            out.push_str(&attr_unescape(&rest[..end]));
+            rest = &rest[end..];
+        }
+    }
+    out
+}
+
+fn take_first_image_children(n: &mut Node) -> Option<Vec<Node>> {
+    if kind(n) == "Image" { return Some(std::mem::take(&mut n.children)); }
+    for c in n.children.iter_mut() { if let Some(v) = take_first_image_children(c) { return Some(v); } }
+    None
+}
+
 pub fn run(n: usize, rng: &mut Rng, rep: &mut Report) {
     let md = Cfg::cmark_only().build();
     let corpus = ["![a \\* &amp; b\nc](x)", "![*e* `c` [l](u) ![i](v) <http://a.b>](x)", "![a  \nb\\\nc](x)",
@@ -38,7 +71,32 @@ pub fn run(n: usize, rng: &mut Rng, rep: &mut Report) {
             match rng.below(4) { 0 => format!("![{}](/x)", lone), 1 => format!("![a [{}](/n) b](/x)", lone), 2 => format!("![*{}* c](/x)", lone), _ => format!("![a ![{}b](/i) c](/x)", lone) }
         } else { format!("![{}](/x)", doc::inline_text(rng, 1, 5)) };
         let input = format!("src={}", hexs(&d));
-        let tree = match crate::util::guarded(|| md.parse(&d)) { Ok(t) => t, Err(_) => { rep.stats.count("skipped_panic_C01"); continue; } };
+        let mut tree = match crate::util::guarded(|| md.parse(&d)) { Ok(t) => t, Err(_) => { rep.stats.count("skipped_panic_C01"); continue; } };
+        let mut second: Option<(String, String)> = None; // (alt, html-derived display) of the first image
+        {
+            let mut imgs = vec![];
+            images(&tree, &mut imgs);
+            if let Some(im) = imgs.first() {
+                let html = im.render();
+                let got = html.find(" alt=\"").map(|i| { let r = &html[i + 6..]; attr_unescape(&r[..r.find('"').unwrap_or(r.len())]) }).unwrap_or_default();
+                second = Some((got, String::new()));
+            }
+        }
+        if let Some((got, _)) = second.clone() {
+            // line breaks next to each other / at the start are merged by the HTML renderer's cr rule: not comparable
+            if !got.contains("\n\n") && !got.starts_with('\n') && !got.contains('\0') && !got.contains('\u{fffd}') {
+                let mut t2 = match crate::util::guarded(|| md.parse(&d)) { Ok(t) => t, Err(_) => continue };
+                if let Some(ch) = take_first_image_children(&mut t2) {
+                    if let Ok(disp) = crate::util::guarded(move || display_via_html(ch)) {
+                        rep.stats.count("compared_with_rendered_description");
+                        if disp != got && !disp.contains("\n\n") && !disp.starts_with('\n') {
+                            rep.violation("alt-vs-rendered-description", input.clone(), format!("alt {:?}, but the description rendered as inline text displays {:?}", got, disp));
+                        }
+                    }
+                }
+            }
+        }
+        let _ = &mut tree;
         let mut imgs = vec![];
         images(&tree, &mut imgs);
         rep.stats.case(&input, !imgs.is_empty() && imgs[0].children.len() > 1);
